@@ -107,8 +107,10 @@ func (c *CompositeCfg) Object() Object {
 		"metadata": Object{"name": c.Name}, "spec": spec}
 }
 
-func (c *CompositeCfg) FinalizerName() string { return "metacontroller.io/compositecontroller-" + c.Name }
-func (c *CompositeCfg) QueueName() string     { return "CompositeController-" + c.Name }
+func (c *CompositeCfg) FinalizerName() string {
+	return "metacontroller.io/compositecontroller-" + c.Name
+}
+func (c *CompositeCfg) QueueName() string { return "CompositeController-" + c.Name }
 
 func (c *CompositeCfg) Rule(res *Resource) *ChildRule {
 	for i := range c.Children {
